@@ -3,6 +3,14 @@
 HOOK_COMMITS = []
 
 CHECKS = [
+  {"property_id": "C02", "level": "exploration",
+   "technique": "bounded-exhaustive enumeration of annotation x value x enforcement site; CPython evaluation of the value plus a PEP-484 membership oracle",
+   "text": "For every annotation of a depth-bounded grammar (scalars, 9 generic forms over 4 element types, type[C], fixed and variadic tuples, unions, bare generics, Callable shapes; depth-3 forms in thorough) one program presents 52 ground values (scalars, class objects, hierarchy instances, homogeneous/heterogeneous/empty/nested containers, functions of several arities) at the argument, return and annotated-assignment sites on separate lines; pytype must report the site's error class on a line iff the evaluated value is not an inhabitant, and nothing on any other line.",
+   "note": "Analysed with none_is_not_bool=True. Documented pytype policies are excluded from the space (str vs Iterable/Sequence[str]; None at annotated assignment; heterogeneous containers at the argument site; class objects vs specific Callable signatures). Trusted: vk/admits.py + Callable arity via inspect.signature."},
+  {"property_id": "C14", "level": "exploration",
+   "technique": "bounded-exhaustive enumeration of ground statements; each analysed by pytype and executed in isolation under CPython",
+   "text": "All 14,015 statements of the value grammar (25 operands under 20 binary and 4 unary operators, all subscripts, calls, bogus and real attribute reads, real method names with 9 argument lists) are analysed packed one per line and executed alone under CPython: a reported error must coincide with a CPython TypeError/AttributeError on that statement, and CPython failures in the advertised classes (bogus attribute on builtin/user instances, not callable, + - * / unary minus and subscripts between builtin operands) must be reported.",
+   "note": "26 listed known findings (dict key of another hashable type is flagged though CPython raises KeyError; float list index and unhashable dict keys are missed; dict.update('s')). Bounded by the operand/method tables in vk/checks/c14.py."},
   {"property_id": "C11", "level": "exploration",
    "technique": "bounded-exhaustive enumeration of pytd declarations x optimiser settings against a finite-universe set semantics of types",
    "text": "All constants whose type is a union of <=2 ordered / 3 unordered members over 33 type forms, functions with 1-3 signatures over a type core, mutated and star parameters and class members are loaded through the real loader and optimised under nine option settings (lossless with/without deps, lossy, use_abcs, max_union 0/2/4, remove_mutable); for every constant/parameter/return the set of universe values admitted before must be a subset of the set admitted after, every original signature must be covered point-wise, lossless non-container unions below the union limit must keep exactly their denotation, and Optimize(Optimize(x)) must equal Optimize(x) structurally and in print.",
